@@ -70,6 +70,10 @@ def units(tier, seed):
         else:
             split.append(u)
     us = split
+    # long spans: the period index times the period length crosses 2**31 after 68 years of half-hours
+    us.append({"kind": "longspan", "years": 71, "P": 1800, "rainfall": 0})
+    us.append({"kind": "longspan", "years": 71, "P": 1800, "rainfall": 1})
+    us.append({"kind": "longspan", "years": 71, "P": 3600, "rainfall": 0})
     for off in (0, 1, -1, 1799, 3599):
         us.append({"kind": "variants", "offset": off, "tier": tier, "seed": seed})
     return us
@@ -263,9 +267,55 @@ def variant_cases(unit):
 VARIANTS = [{"unit": u, "tz": tz} for u in ("s", "ms", "us", "ns") for tz in (None, "UTC", "+10:00", "Australia/Brisbane")]
 
 
+def check_longspan(ctx, dutils, unit):
+    """daily observations over `years` years, constant value 1.5 (rainfall: daily total 24): every
+    non-final output period lies between two valid observations, so it must equal the exact average
+    (1.5) resp. the prorated total (24 * P / 86400)"""
+    years, P, rain = unit["years"], unit["P"], unit["rainfall"]
+    idx = pd.date_range("1950-01-01", "%d-01-01" % (1950 + years), freq="D")
+    val = 24.0 if rain else 1.5
+    se = pd.Series(np.full(len(idx), val), index=idx)
+    case = {"kind": "longspan", "years": years, "P": P, "rainfall": rain}
+    try:
+        out = dutils.var2h(se, nbsec_per_period=P, maxgapsec=5 * 86400, rainfall=bool(rain)).values
+    except Exception as e:
+        ctx.case(True)
+        ctx.violation("var2h:longspan:raised", case, "raised %r" % (e,))
+        return
+    nexp = int((idx[-1] - idx[0]).total_seconds() // P)
+    ctx.case(True, outcome=(len(out), float(np.nansum(out))))
+    if len(out) != nexp:
+        ctx.violation("var2h:longspan:length", case, "returned %d periods, expected %d" % (len(out), nexp))
+        return
+    exp = val * P / 86400.0 if rain else val
+    # the series starts on the hour, so hstart = start + 3600 s; a period is judged when it ends at or
+    # before the last observation (later ones must be missing) and is not the final output period
+    span = int((idx[-1] - idx[0]).total_seconds())
+    ends = 3600 + (np.arange(len(out)) + 1) * P
+    covered = ends <= span
+    covered[-1] = False
+    bad = np.where(covered & ~(np.abs(out - exp) <= 1e-9 * exp))[0]
+    unc = np.where(~covered & ~np.isnan(out))[0]
+    unc = unc[unc < len(out) - 1]
+    if len(unc):
+        ctx.violation("var2h:longspan:P=%d:uncovered-not-missing" % P, case, "period %d ends after the last observation but holds %r" % (int(unc[0]), float(out[unc[0]])))
+    ctx.count("period.value", int(covered.sum()))
+    if len(bad):
+        ctx.violation("var2h:longspan:P=%d:%s:value" % (P, "rain" if rain else "lin"), case,
+                      "%d of %d covered periods differ from the exact value %r; first at period %d (%.1f years after the start): %r" % (
+                          len(bad), int(covered.sum()), exp, int(bad[0]), bad[0] * P / 86400.0 / 365.25, float(out[bad[0]])),
+                      observed=float(out[bad[0]]), expected=exp)
+
+
 def run_unit(unit, ctx):
     from hydrodiy.data import dutils
     first = True
+    if unit["kind"] == "longspan":
+        if ctx.sup.begin(0):
+            ctx.case(False, n=0, sample=dict(unit))
+            check_longspan(ctx, dutils, unit)
+            ctx.sup.end()
+        return
     if unit["kind"] == "main":
         for i, (stamps, vals, P, rainfall, G) in enumerate(main_cases(unit)):
             if not ctx.sup.begin(i):
@@ -307,6 +357,9 @@ def run_unit(unit, ctx):
 
 
 def crash_violation(unit, idx, status, stderr):
+    if unit["kind"] == "longspan":
+        kind = "hang" if "timeout" in status else "crash"
+        return ("var2h:longspan:%s" % kind, dict(unit), "the interpreter did not survive var2h on a %d-year daily series: %s" % (unit["years"], status))
     gen = main_cases(unit) if unit["kind"] == "main" else variant_cases(unit)
     case = None
     for i, (stamps, vals, P, rainfall, G) in enumerate(gen):
@@ -322,6 +375,9 @@ def replay(case):
     from mc.explore import Result
     from hydrodiy.data import dutils
     ctx = Result()
+    if case.get("kind") == "longspan":
+        check_longspan(ctx, dutils, case)
+        return [v for lst in ctx.violations.values() for v in lst]
     vals = [float("nan") if v is None else v for v in case["vals"]]
     var = case.get("variant")
     if var and var.get("all"):
